@@ -481,6 +481,16 @@ func truncatedFrom(v ssa.Value, seen map[ssa.Value]bool, depth int) string {
 		case "(*math/big.Int).Uint64", "(*math/big.Int).Int64":
 			return calleeFull(x)
 		}
+		// an akash accessor that narrows inside (e.g. a Value() getter)
+		if g := x.Call.StaticCallee(); g != nil && g.Blocks != nil && strings.HasPrefix(fnPkgPath(g), akash) && depth < 6 {
+			for _, b := range g.Blocks {
+				if r, isR := b.Instrs[len(b.Instrs)-1].(*ssa.Return); isR && len(r.Results) >= 1 {
+					if t := truncatedFrom(r.Results[0], seen, depth+3); t != "" {
+						return t + " inside " + fnName(g)
+					}
+				}
+			}
+		}
 		return ""
 	case *ssa.Convert:
 		if a, b := intSize(x.X.Type()), intSize(x.Type()); a > 0 && b > 0 && b < a {
